@@ -1,9 +1,10 @@
 //! Block table implementation for MPQ archives
 
+use super::common::seek_to_table;
 use crate::crypto::{decrypt_block, hash_string, hash_type};
 use crate::{Error, Result};
 use byteorder::{LittleEndian, ReadBytesExt};
-use std::io::{Read, Seek, SeekFrom};
+use std::io::{Read, Seek};
 
 /// Block table entry (16 bytes)
 #[repr(C)]
@@ -115,10 +116,10 @@ impl BlockTable {
     /// Read and decrypt a block table from the archive
     pub fn read<R: Read + Seek>(reader: &mut R, offset: u64, size: u32) -> Result<Self> {
         // Seek to block table position
-        reader.seek(SeekFrom::Start(offset))?;
+        let byte_size = size as usize * 16; // 16 bytes per entry
+        seek_to_table(reader, offset, byte_size as u64, "Block table")?;
 
         // Read raw data
-        let byte_size = size as usize * 16; // 16 bytes per entry
         let mut raw_data = vec![0u8; byte_size];
         reader.read_exact(&mut raw_data)?;
 
@@ -248,7 +249,7 @@ pub struct HiBlockTable {
 impl HiBlockTable {
     /// Read the hi-block table
     pub fn read<R: Read + Seek>(reader: &mut R, offset: u64, size: u32) -> Result<Self> {
-        reader.seek(SeekFrom::Start(offset))?;
+        seek_to_table(reader, offset, u64::from(size) * 2, "Hi-block table")?;
 
         let mut entries = Vec::with_capacity(size as usize);
         for _ in 0..size {
